@@ -260,48 +260,16 @@ func c13MetaQueries(m map[string][]string) []string {
 	return out
 }
 
-type c13LoadRecipe struct {
-	name   string
-	reopen bool
-	lru    int
-	// ids resolved by full id after the reopen, in this order
-	bugs, idents []string
-}
-
-func everyOther(sorted []string, offset int) []string {
-	var out []string
-	for i, id := range sorted {
-		if i%2 == offset {
-			out = append(out, id)
-		}
-	}
-	return out
-}
-
-func shuffled(ids []string, rng *rand.Rand) []string {
-	out := append([]string(nil), ids...)
-	rng.Shuffle(len(out), func(i, j int) { out[i], out[j] = out[j], out[i] })
-	return out
-}
-
-// c13LoadStates runs the load-state part on a population whose cache c has just been built.
-// It leaves the replica with an open cache (closed by World.Close).
-func c13LoadStates(p c13Pop, cw *c13World, c *cache.RepoCache,
-	bugPop, identPop, comPop *refmodel.PrefixPopulation, commentOf map[string]c13Comment, acc *c13Acc) {
-
-	r := cw.rep
-	rng := mon.Rng(p.Seed, "c13-loadstates-"+p.Name, p.Idx)
-	popN := map[string]int{"bugs": bugPop.Len(), "identities": identPop.Len(), "comments": comPop.Len()}
-
-	// ---- lookups -------------------------------------------------------------------
+// c13Lookups returns every resolution API the check drives, per namespace, in the order they are
+// asked: bugs = ResolvePrefix, ResolveExcerptPrefix, _select.Resolve with nothing selected, the lookup by
+// create metadata and (when a bug id is given) _select.Resolve with that bug preselected — last, because
+// with nothing matching it falls back to the selected bug, which loads that bug; identities =
+// ResolvePrefix, ResolveExcerptPrefix, the lookup by immutable metadata.
+func c13Lookups(selected string) (bugLookups, identLookups []*c13Lookup) {
 	bugPrefix := func(name string, call func(c *cache.RepoCache, q string) c13Ans) *c13Lookup {
 		return &c13Lookup{name: name, family: "prefix", ns: "bugs", call: call, judge: c13JudgePrefix, churn: true}
 	}
-	selected := ""
-	if len(cw.bugIds) > 0 {
-		selected = cw.bugIds[rng.Intn(len(cw.bugIds))]
-	}
-	bugLookups := []*c13Lookup{
+	bugLookups = []*c13Lookup{
 		bugPrefix("bugs.ResolvePrefix", func(c *cache.RepoCache, q string) c13Ans {
 			return c13Guarded(func() (string, error) {
 				b, err := c.Bugs().ResolvePrefix(q)
@@ -331,7 +299,7 @@ func c13LoadStates(p c13Pop, cw *c13World, c *cache.RepoCache,
 			teardown: func(c *cache.RepoCache) { _ = _select.Clear(c, bug.Namespace) },
 		})
 	}
-	identLookups := []*c13Lookup{
+	identLookups = []*c13Lookup{
 		{name: "identities.ResolvePrefix", family: "prefix", ns: "identities", judge: c13JudgePrefix, churn: true,
 			call: func(c *cache.RepoCache, q string) c13Ans {
 				return c13Guarded(func() (string, error) {
@@ -382,6 +350,54 @@ func c13LoadStates(p c13Pop, cw *c13World, c *cache.RepoCache,
 			})
 		}}
 
+	bugLookups = append(bugLookups, bugMeta)
+	if bugSelected != nil {
+		bugLookups = append(bugLookups, bugSelected)
+	}
+	identLookups = append(identLookups, identMeta)
+	return bugLookups, identLookups
+}
+
+type c13LoadRecipe struct {
+	name   string
+	reopen bool
+	lru    int
+	// ids resolved by full id after the reopen, in this order
+	bugs, idents []string
+}
+
+func everyOther(sorted []string, offset int) []string {
+	var out []string
+	for i, id := range sorted {
+		if i%2 == offset {
+			out = append(out, id)
+		}
+	}
+	return out
+}
+
+func shuffled(ids []string, rng *rand.Rand) []string {
+	out := append([]string(nil), ids...)
+	rng.Shuffle(len(out), func(i, j int) { out[i], out[j] = out[j], out[i] })
+	return out
+}
+
+// c13LoadStates runs the load-state part on a population whose cache c has just been built.
+// It leaves the replica with an open cache (closed by World.Close).
+func c13LoadStates(p c13Pop, cw *c13World, c *cache.RepoCache,
+	bugPop, identPop, comPop *refmodel.PrefixPopulation, commentOf map[string]c13Comment, acc *c13Acc) {
+
+	r := cw.rep
+	rng := mon.Rng(p.Seed, "c13-loadstates-"+p.Name, p.Idx)
+	popN := map[string]int{"bugs": bugPop.Len(), "identities": identPop.Len(), "comments": comPop.Len()}
+
+	// ---- lookups (c13Lookups) ---------------------------------------------------------
+	selected := ""
+	if len(cw.bugIds) > 0 {
+		selected = cw.bugIds[rng.Intn(len(cw.bugIds))]
+	}
+	bugLookups, identLookups := c13Lookups(selected)
+
 	// ---- queries with the model's prediction --------------------------------------------
 	predict := func(qs []c13Query, model func(string) (refmodel.PrefixKind, []string)) *c13QuerySet {
 		set := &c13QuerySet{qs: qs}
@@ -409,21 +425,15 @@ func c13LoadStates(p c13Pop, cw *c13World, c *cache.RepoCache,
 	bugMetaQ, identMetaQ := metaQ(cw.bugMeta), metaQ(cw.identMeta)
 	queriesOf := func(l *c13Lookup) *c13QuerySet {
 		switch {
-		case l == bugMeta:
+		case l.family == "metadata" && l.ns == "bugs":
 			return bugMetaQ
-		case l == identMeta:
+		case l.family == "metadata":
 			return identMetaQ
 		case l.ns == "bugs":
 			return bugQ
 		}
 		return identQ
 	}
-	bugLookups = append(bugLookups, bugMeta)
-	if bugSelected != nil {
-		// last: with nothing matching it falls back to the selected bug, which loads that bug
-		bugLookups = append(bugLookups, bugSelected)
-	}
-	identLookups = append(identLookups, identMeta)
 
 	// comments: a sample of combined ids (ResolveComment loads every candidate bug, so with few loaded
 	// bugs every query reads bugs from git): the comments sharing the longest prefixes + a random rest
